@@ -398,34 +398,61 @@ func TestVFC03Decision(t *testing.T) {
 		}
 		defer w.close()
 
+		// Phases: the lists installed by Prepare, then up to two replacements
+		// through POST /control/access/set while the server keeps serving.
+		// Clients seen in an earlier phase come back in the later ones, so a
+		// verdict remembered across a change of the lists shows.
 		cur := first
 		via := "prepare"
-		if rapid.Bool().Draw(t, "replace_via_http") {
-			second := vfC03DrawLists(t, "l1")
-			body, _ := json.Marshal(second)
-			rec := httptest.NewRecorder()
-			w.srv.handleAccessSet(rec, httptest.NewRequest(http.MethodPost, "/control/access/set", bytes.NewReader(body)))
-			if rec.Code == http.StatusOK {
-				cur = second
-				via = "http_set"
-			} else {
-				// a rejected update must leave the old lists in force
-				via = "http_set_rejected"
-				vfC03.Class("http_set_rejected")
-			}
+		type seenKey struct {
+			addr netip.Addr
+			id   string
 		}
-
-		m := vfNewC03Model(cur)
-		n := rapid.IntRange(5, 25).Draw(t, "n_requests")
-		for i := 0; i < n; i++ {
-			r := vfC03DrawReq(t, cur, fmt.Sprintf("r%d", i))
-			o := w.run(vfC03Query(r))
-			vfC03CheckDecision(t, cur, m, r, o, via)
-			if o.BeforeErr == nil {
-				// served: goes on to normal processing
-				if o.Err != nil || o.Res == nil {
-					t.Fatalf("admitted request failed in processing: %v", o.Err)
+		seen := map[seenKey]bool{}
+		var earlier []*vfC03Req
+		nPhases := rapid.IntRange(1, 3).Draw(t, "n_phases")
+		for ph := 0; ph < nPhases; ph++ {
+			if ph > 0 {
+				next := vfC03DrawLists(t, fmt.Sprintf("l%d", ph))
+				body, _ := json.Marshal(next)
+				rec := httptest.NewRecorder()
+				w.srv.handleAccessSet(rec, httptest.NewRequest(http.MethodPost, "/control/access/set", bytes.NewReader(body)))
+				if rec.Code == http.StatusOK {
+					cur = next
+					via = "http_set"
+				} else {
+					// a rejected update must leave the old lists in force
+					via = "http_set_rejected"
+					vfC03.Class("http_set_rejected")
 				}
+			}
+
+			m := vfNewC03Model(cur)
+			n := rapid.IntRange(3, 14).Draw(t, fmt.Sprintf("p%d_n_requests", ph))
+			for i := 0; i < n; i++ {
+				label := fmt.Sprintf("p%d_r%d", ph, i)
+				var r *vfC03Req
+				if len(earlier) > 0 && rapid.IntRange(0, 2).Draw(t, label+"_again") == 0 {
+					// the same client (and question) as an earlier request
+					cp := *earlier[rapid.IntRange(0, len(earlier)-1).Draw(t, label+"_which")]
+					r = &cp
+				} else {
+					r = vfC03DrawReq(t, cur, label)
+				}
+				k := seenKey{addr: r.Addr, id: r.ClientID}
+				if seen[k] && ph > 0 && via == "http_set" {
+					vfC03.Class("client_seen_before_lists_changed")
+				}
+				o := w.run(vfC03Query(r))
+				vfC03CheckDecision(t, cur, m, r, o, via)
+				if o.BeforeErr == nil {
+					// served: goes on to normal processing
+					if o.Err != nil || o.Res == nil {
+						t.Fatalf("admitted request failed in processing: %v", o.Err)
+					}
+				}
+				seen[k] = true
+				earlier = append(earlier, r)
 			}
 		}
 	})
